@@ -9,6 +9,7 @@ pub mod c06;
 pub mod c07;
 pub mod c08;
 pub mod c09;
+pub mod c10;
 pub mod c12;
 pub mod c14;
 pub mod textgen;
@@ -24,6 +25,7 @@ pub fn dispatch(id: &str, cfg: Config) -> i32 {
         "C07" => crate::run_prop(c07::C07, cfg),
         "C08" => crate::run_prop(c08::C08, cfg),
         "C09" => crate::run_prop(c09::C09, cfg),
+        "C10" => crate::run_prop(c10::C10, cfg),
         "C12" => crate::run_prop(c12::C12, cfg),
         "C14" => crate::run_prop(c14::C14, cfg),
         _ => {
